@@ -173,3 +173,6 @@ def run_shard(spec):
 
 def replay(doc):
     return pool_checks.replay(__import__(MOD, fromlist=["x"]), doc)
+
+
+RULE += ' Also (waves 8-9): pools left while the generator of the last call is still alive (items of 30 ms and of 1.25 s), the worker-storm rule while leaving, a pool inside a child process of the multiprocessing package, a context left by another thread than the one that entered it (an exception out of __exit__ with workers that never ran end() is a finding).'
